@@ -226,6 +226,7 @@ pub fn run(report: &Report, thorough: bool) -> Evidence {
                 // created with the four options inverted (a live context must honour the new options)
                 // (driver option `via_update`: created with every boolean option inverted, then update_engine)
                 o.via_update = idx % 2 == 1;
+                o.churn = idx % 4 == 2;
                 let mut ctx = Ctx::new(&o).expect("ctx");
                 ctx.with_pre = !lists;
                 let mut d = Dfs { ctx, avro: &avro, report, alphabet, checked: 0, events: 0, text: String::new(), lists, samples: &samples, part: name };
